@@ -687,6 +687,26 @@ func (e *Engine) VerifyFunc(bc *BoundContract) (rep *FuncReport) {
 				}
 				u.addObl(o)
 			}
+			// "fresh r": the result is an object allocated during the call (decided on the address term)
+			for ri := range bc.Results {
+				if !bc.FreshResult[ri] || ri >= len(vals) {
+					continue
+				}
+				var a *Term
+				switch v := vals[ri].(type) {
+				case *IfaceV:
+					a = v.Ptr
+				case *Term:
+					a = v
+				case *SliceV:
+					a = v.Base
+				}
+				g := c.False
+				if a != nil {
+					g = freshTerm(c, a)
+				}
+				u.addObl(&Obligation{Kind: "ensures", Name: "fresh " + bc.Results[ri].Name(), PC: out.pc, Goal: g, Pos: e.Fset.Position(fn.Pos())})
+			}
 			if len(cs.terms) == 0 {
 				// canary: the exit must be reachable (otherwise every postcondition is vacuous)
 				u.addObl(&Obligation{Kind: "cover", Name: "exit reachable", PC: out.pc, Goal: c.False, Expect: "sat", Pos: e.Fset.Position(fn.Pos())})
@@ -877,4 +897,15 @@ func ssautilAll(prog *ssa.Program) []*ssa.Function {
 		}
 	}
 	return out
+}
+
+// freshTerm: the address denotes (a cell of) an object allocated during the call; nil counts as not fresh.
+func freshTerm(c *Ctx, t *Term) *Term {
+	if t.Op == OpIte {
+		return c.Ite(t.Args[0], freshTerm(c, t.Args[1]), freshTerm(c, t.Args[2]))
+	}
+	if r, k := addrRoot(t); k == 1 && r.K > 0 {
+		return c.True
+	}
+	return c.False
 }
